@@ -252,6 +252,185 @@ theorem nodes_hash_unique (cr : CR H) (F : Forest H) (hn : F.numLeaves < 2 ^ 64)
   exact ⟨this.1, this.2.2⟩
 
 
+/-! ### 3'. the hash of a LEAF occurs at one position only — no injectivity of `ph` needed
+
+What the honest-behaviour proofs need about leaf hashes (a map keyed by hash finds the right
+leaf) follows from the leaves being pairwise different and not being parent hashes; the
+injectivity of `ph` (`CR.inj`) plays no role. -/
+
+/-- a leaf entry of a collapsed tree carries one of the tree's leaves -/
+theorem CTree.leafEntry_mem_leaves : ∀ (t : CTree H) (r o : Nat), ∀ e ∈ t.nodes r o, e.2.2 = true →
+    e.2.1 ∈ t.leaves := by
+  intro t
+  induction t with
+  | leaf h =>
+    intro r o e he _
+    simp only [CTree.nodes, List.mem_singleton] at he
+    subst he
+    simp [CTree.leaves]
+  | node a b iha ihb =>
+    intro r o e he hf
+    simp only [CTree.nodes, List.mem_cons, List.mem_append] at he
+    rcases he with rfl | he | he
+    · simp at hf
+    · simp only [CTree.leaves, List.mem_append]
+      exact Or.inl (iha _ _ e he hf)
+    · simp only [CTree.leaves, List.mem_append]
+      exact Or.inr (ihb _ _ e he hf)
+
+/-- an entry whose hash is not a parent hash is a leaf entry carrying one of the tree's leaves -/
+theorem CTree.nonParent_entry : ∀ (t : CTree H) (r o : Nat), ∀ e ∈ t.nodes r o,
+    (∀ a b : H, e.2.1 ≠ ph a b) → e.2.2 = true ∧ e.2.1 ∈ t.leaves := by
+  intro t
+  induction t with
+  | leaf h =>
+    intro r o e he _
+    simp only [CTree.nodes, List.mem_singleton] at he
+    subst he
+    simp [CTree.leaves]
+  | node a b iha ihb =>
+    intro r o e he hn
+    simp only [CTree.nodes, List.mem_cons, List.mem_append] at he
+    rcases he with rfl | he | he
+    · exact absurd rfl (hn a.hash b.hash)
+    · obtain ⟨h1, h2⟩ := iha _ _ e he hn
+      exact ⟨h1, by simp only [CTree.leaves, List.mem_append]; exact Or.inl h2⟩
+    · obtain ⟨h1, h2⟩ := ihb _ _ e he hn
+      exact ⟨h1, by simp only [CTree.leaves, List.mem_append]; exact Or.inr h2⟩
+
+/-- inside one tree with distinct leaves that are not parent hashes, an entry carrying the hash
+of a leaf entry IS that leaf entry (no `CR`) -/
+theorem CTree.nodes_leaf_hash_unique : ∀ (t : CTree H), t.leaves.Nodup →
+    (∀ x ∈ t.leaves, ∀ a b : H, x ≠ ph a b) → ∀ (r o : Nat) (e e' : Pos × H × Bool),
+    e ∈ t.nodes r o → e' ∈ t.nodes r o → e.2.2 = true → e.2.1 = e'.2.1 → e = e' := by
+  intro t
+  induction t with
+  | leaf h =>
+    intro _ _ r o e e' he he' _ _
+    simp only [CTree.nodes, List.mem_singleton] at he he'
+    rw [he, he']
+  | node a b iha ihb =>
+    intro hnd hl r o e e' he he' hf heq
+    have hnd' : (a.leaves ++ b.leaves).Nodup := hnd
+    obtain ⟨hna, hnb, hdis⟩ := List.nodup_append.mp hnd'
+    have hla : ∀ x ∈ a.leaves, ∀ u v : H, x ≠ ph u v :=
+      fun x hx => hl x (by simp [CTree.leaves, hx])
+    have hlb : ∀ x ∈ b.leaves, ∀ u v : H, x ≠ ph u v :=
+      fun x hx => hl x (by simp [CTree.leaves, hx])
+    simp only [CTree.nodes, List.mem_cons, List.mem_append] at he he'
+    rcases he with rfl | he | he
+    · simp at hf
+    · have hxa : e.2.1 ∈ a.leaves := CTree.leafEntry_mem_leaves a _ _ e he hf
+      rcases he' with rfl | he' | he'
+      · exact absurd heq (hla _ hxa _ _)
+      · exact iha hna hla _ _ _ _ he he' hf heq
+      · have := (CTree.nonParent_entry b _ _ e' he' (by rw [← heq]; exact hla _ hxa)).2
+        rw [← heq] at this
+        exact absurd rfl (hdis _ hxa _ this)
+    · have hxb : e.2.1 ∈ b.leaves := CTree.leafEntry_mem_leaves b _ _ e he hf
+      rcases he' with rfl | he' | he'
+      · exact absurd heq (hlb _ hxb _ _)
+      · have := (CTree.nonParent_entry a _ _ e' he' (by rw [← heq]; exact hlb _ hxb)).2
+        rw [← heq] at this
+        exact absurd rfl (hdis _ this _ hxb)
+      · exact ihb hnb hlb _ _ _ _ he he' hf heq
+
+/-- in a forest with distinct live leaves that are not parent hashes, a node carrying the hash
+of a leaf node sits at that leaf's position and is that leaf (no `CR`) -/
+theorem nodes_leaf_hash_unique (F : Forest H) (hn : F.numLeaves < 2 ^ 64)
+    (hnd : F.liveLeaves.Nodup) (hleaf : ∀ x ∈ F.liveLeaves, ∀ a b : H, x ≠ ph a b) :
+    ∀ (p p' : Pos) (h : H) (lf' : Bool), h ≠ (zero : H) →
+      (p, h, true) ∈ F.nodes → (p', h, lf') ∈ F.nodes → p = p' ∧ lf' = true := by
+  intro p p' h lf' hz he he'
+  have hnd' := hnd
+  rw [← trees_leaves F hn] at hnd'
+  have hsub : ∀ q ∈ F.trees, ∀ x ∈ optLeaves q.2, x ∈ F.liveLeaves := by
+    intro q hq x hx
+    rw [← trees_leaves F hn]
+    exact List.mem_flatMap.mpr ⟨q, hq, hx⟩
+  simp only [Forest.nodes, List.mem_flatMap] at he he'
+  obtain ⟨⟨T, ot⟩, hq, he⟩ := he
+  obtain ⟨⟨T', ot'⟩, hq', he'⟩ := he'
+  cases ot with
+  | none =>
+    simp only [List.mem_singleton, Prod.mk.injEq] at he
+    exact absurd he.2.1 hz
+  | some t =>
+  cases ot' with
+  | none =>
+    simp only [List.mem_singleton, Prod.mk.injEq] at he'
+    exact absurd he'.2.1 hz
+  | some t' =>
+  simp only at he he'
+  have hl : ∀ x ∈ t.leaves, ∀ a b : H, x ≠ ph a b := fun x hx => hleaf x (hsub _ hq x hx)
+  have hht : h ∈ t.leaves := CTree.leafEntry_mem_leaves t _ _ _ he rfl
+  have hht' : h ∈ t'.leaves := (CTree.nonParent_entry t' _ _ _ he' (hl h hht)).2
+  have hsame := flatMap_nodup_common _ _ hnd' _ hq _ hq' h hht hht'
+  simp only [Prod.mk.injEq, Option.some.injEq] at hsame
+  obtain ⟨rfl, rfl⟩ := hsame
+  have htn : t.leaves.Nodup := flatMap_nodup_block _ _ hnd' _ hq
+  have := CTree.nodes_leaf_hash_unique t htn hl _ _ _ _ he he' rfl rfl
+  simp only [Prod.mk.injEq] at this
+  exact ⟨this.1, this.2.2.symm⟩
+
+
+/-! ### 3''. a FINITE substitute for the injectivity of `ph`, about one forest
+
+`CR H` is impossible for a finite hash type.  What the proofs that need "equal hashes, equal
+nodes" use of it is a statement about the finitely many nodes of the forest(s) at hand:
+`NodesDistinct F`.  It is decidable, follows from `CR` (`nodesDistinct_of_CR`), and is what one
+expects of a real hash on any forest that will ever exist (a violation is an explicit
+collision). -/
+
+/-- no non-zero hash sits at two places of `F` -/
+def NodesDistinct (F : Forest H) : Prop :=
+  ∀ x ∈ F.nodes, ∀ y ∈ F.nodes, x.2.1 ≠ (zero : H) → x.2.1 = y.2.1 → x.1 = y.1 ∧ x.2.2 = y.2.2
+
+instance (F : Forest H) : Decidable (NodesDistinct F) := by
+  unfold NodesDistinct; infer_instance
+
+theorem NodesDistinct.unique {F : Forest H} (hd : NodesDistinct F) {p p' : Pos} {h : H}
+    {lf lf' : Bool} (hz : h ≠ (zero : H)) (h1 : (p, h, lf) ∈ F.nodes) (h2 : (p', h, lf') ∈ F.nodes) :
+    p = p' ∧ lf = lf' :=
+  hd _ h1 _ h2 hz rfl
+
+/-- under `CR` every forest with distinct live leaves that are not parent hashes has it -/
+theorem nodesDistinct_of_CR (cr : CR H) (F : Forest H) (hn : F.numLeaves < 2 ^ 64)
+    (hnd : F.liveLeaves.Nodup) (hleaf : ∀ x ∈ F.liveLeaves, ∀ a b : H, x ≠ ph a b) :
+    NodesDistinct F := by
+  rintro ⟨p, h, lf⟩ hx ⟨p', h', lf'⟩ hy hz he
+  simp only at hz he
+  subst he
+  exact nodes_hash_unique cr F hn hnd hleaf p p' h lf lf' hz hx hy
+
+
+/-- `NodesDistinct` for every forest reached along a history (after each block): finitely many
+decidable conditions -/
+def DistinctRun : Forest H → List (Forest.Block H) → Prop
+  | _, [] => True
+  | F, b :: rest => NodesDistinct (F.modify b.1 b.2) ∧ DistinctRun (F.modify b.1 b.2) rest
+
+instance decDistinctRun : (F : Forest H) → (hist : List (Forest.Block H)) →
+    Decidable (DistinctRun F hist)
+  | _, [] => isTrue trivial
+  | F, b :: rest =>
+    have := decDistinctRun (F.modify b.1 b.2) rest
+    inferInstanceAs (Decidable (NodesDistinct (F.modify b.1 b.2) ∧ DistinctRun (F.modify b.1 b.2) rest))
+
+theorem distinctRun_append {F : Forest H} {h1 h2 : List (Forest.Block H)} :
+    DistinctRun F (h1 ++ h2) ↔ DistinctRun F h1 ∧ DistinctRun (Forest.run F h1) h2 := by
+  induction h1 generalizing F with
+  | nil => simp [DistinctRun, Forest.run]
+  | cons b r ih =>
+    simp only [List.cons_append, DistinctRun, Forest.run, ih, and_assoc]
+
+/-- the forest reached by a non-empty prefix of a `DistinctRun` history has `NodesDistinct` -/
+theorem DistinctRun.last {F : Forest H} {pre : List (Forest.Block H)} {b : Forest.Block H}
+    (h : DistinctRun F (pre ++ [b])) : NodesDistinct (Forest.run F (pre ++ [b])) := by
+  rw [Forest.run_append]
+  exact ((distinctRun_append.1 h).2).1
+
+
 /-! ### 4. a position occurs only once -/
 
 /-- depth of a collapsed tree -/
@@ -505,6 +684,14 @@ example : ∀ (p p' : Pos) (h : Term) (lf lf' : Bool), h ≠ (zero : Term) →
 example : ∀ (p : Pos) (h h' : Term) (lf lf' : Bool),
     (p, h, lf) ∈ exF.nodes → (p, h', lf') ∈ exF.nodes → h = h' ∧ lf = lf' :=
   nodes_pos_unique exF exF_num
+
+example : NodesDistinct exF := nodesDistinct_of_CR termCR exF exF_num exF_nodup exF_leaf
+
+example : NodesDistinct exF := by decide
+
+example : ∀ (p p' : Pos) (h : Term) (lf' : Bool), h ≠ (zero : Term) →
+    (p, h, true) ∈ exF.nodes → (p', h, lf') ∈ exF.nodes → p = p' ∧ lf' = true :=
+  nodes_leaf_hash_unique exF exF_num exF_nodup exF_leaf
 
 end NodesUniqueExample
 
